@@ -60,10 +60,10 @@ PERTURB = {"MALLOC_PERTURB_": "85"}
 
 def plan(tier):
     if tier == "thorough":
-        return [{"variant": "plain", "workers": 12, "cases": 12000, "name": "plain", "env": PERTURB},
-                {"variant": "asan", "workers": 4, "cases": 1500, "name": "asan"}]
-    return [{"variant": "plain", "workers": 7, "cases": 1000, "name": "plain", "env": PERTURB},
-            {"variant": "asan", "workers": 1, "cases": 150, "name": "asan"}]
+        return [{"variant": "plain", "workers": 12, "cases": 6000, "name": "plain", "env": PERTURB},
+                {"variant": "asan", "workers": 4, "cases": 600, "name": "asan"}]
+    return [{"variant": "plain", "workers": 7, "cases": 600, "name": "plain", "env": PERTURB},
+            {"variant": "asan", "workers": 1, "cases": 80, "name": "asan"}]
 
 
 def run(ctx):
